@@ -93,6 +93,14 @@ func InstallFaults(f *Fed, faults []FaultSpec, barrier int) *FaultLog {
 						}
 						data, _ := Exec(s.Schema, s.Store, doc, in.OperationName, in.Variables)
 						return data, graphql.ErrorList{&graphql.Error{Message: "injected-with-data"}}, true
+					case "gqlerrors+null":
+						// the way many servers report a failed field: the errors, and null where the field belongs
+						fl.Failures++
+						fl.Errors++
+						if isRootCall(in) {
+							return nil, graphql.ErrorList{&graphql.Error{Message: "injected-with-null"}}, true
+						}
+						return map[string]interface{}{"node": nil}, graphql.ErrorList{&graphql.Error{Message: "injected-with-null", Path: []interface{}{"node"}}}, true
 					case "join-drop-id", "join-retype", "join-scalar":
 						// the real answer, malformed exactly where a dependent step joins
 						doc, errs := gqlparser.LoadQuery(s.Schema, in.Query)
